@@ -63,6 +63,32 @@ func disarmRefusals() int {
 	return refusals.consumed
 }
 
+// hold: while armed for a sender, every receiver that decodes a state made by that sender waits at
+// the gate, so that the harness can act on the sender while its broadcast round is in flight.
+var hold struct {
+	mu      sync.Mutex
+	from    int32
+	arrived chan struct{}
+	release chan struct{}
+}
+
+func init() { hold.from = -1 }
+
+func holdFrom(sender int) (arrived <-chan struct{}, release func()) {
+	hold.mu.Lock()
+	defer hold.mu.Unlock()
+	hold.from = int32(sender)
+	hold.arrived = make(chan struct{}, 64)
+	hold.release = make(chan struct{})
+	rel := hold.release
+	return hold.arrived, func() {
+		hold.mu.Lock()
+		hold.from = -1
+		hold.mu.Unlock()
+		close(rel)
+	}
+}
+
 func (f flakyCounter) Init() resources.CRDTValue {
 	return flakyCounter{G: resources.GCounter{}.Init().(resources.GCounter), Node: f.Node}
 }
@@ -107,6 +133,16 @@ func (f *flakyCounter) GobDecode(b []byte) error {
 	refusals.mu.Unlock()
 	if refuse {
 		return errors.New("c13: incoming state refused (injected)")
+	}
+	hold.mu.Lock()
+	var arr, rel chan struct{}
+	if hold.from == node {
+		arr, rel = hold.arrived, hold.release
+	}
+	hold.mu.Unlock()
+	if rel != nil {
+		arr <- struct{}{}
+		<-rel
 	}
 	f.Node = node
 	return f.G.GobDecode(b[12:])
